@@ -313,7 +313,11 @@ fn step(w: &mut World, op: &R1Op, pre: Option<&Resolved>, remap: &BTreeMap<Id, I
                 None => failed = true,
             }
         }
-        R1Op::WitnessOffer { offer } => {
+        R1Op::WitnessOffer { offer } | R1Op::WitnessOfferAffine { offer } => {
+            let via_affine = matches!(op, R1Op::WitnessOfferAffine { .. });
+            if via_affine {
+                w.probe("coordinates_offered_through_affine_entry_point");
+            }
             let (x, y) = offer_coords(offer);
             let valid = offer_is_valid(offer);
             if !valid {
@@ -323,7 +327,12 @@ fn step(w: &mut World, op: &R1Op, pre: Option<&Resolved>, remap: &BTreeMap<Id, I
             }
             let p = Element::verif_from_affine_unchecked(bridge::big_to_fq(&x), bridge::big_to_fq(&y));
             let r = guard(w, name, true, || {
-                <ElementVar as AllocVar<Element, Fq>>::new_variable(cs.clone(), || Ok(p), AllocationMode::Witness)
+                if via_affine {
+                    let ap: AffinePoint = p.into_affine();
+                    <ElementVar as AllocVar<AffinePoint, Fq>>::new_variable(cs.clone(), || Ok(ap), AllocationMode::Witness)
+                } else {
+                    <ElementVar as AllocVar<Element, Fq>>::new_variable(cs.clone(), || Ok(p), AllocationMode::Witness)
+                }
             });
             match r {
                 Some(Ok(var)) => {
